@@ -551,6 +551,10 @@ func c05Case(c *core.Ctx, i int64, r *rand.Rand) {
 	var out, lg bytes.Buffer
 	var err error
 	in := append([]byte{}, src...)
+	if h := core.Hash(in); h%16 == 7 {
+		EarlierCall(h >> 4) // a library call of another kind first (see common.go)
+		c.Count("unmarshals_after_an_earlier_call_of_another_kind", 1)
+	}
 	pan, stack := protect(func() { err = bcl.Unmarshal(in, ptr.Interface(), bcl.OptOutput(&out), bcl.OptLogger(&lg)) })
 	for k := range in {
 		in[k] = '#' // the caller reuses its buffer: the target must not refer to it
